@@ -19,7 +19,7 @@ structure WF (S : Sys) : Prop where
   tmp_staging : ∀ i p, S.staging (S.tmpOf i p) = true
   tmp_inj : ∀ i j p q, S.tmpOf i p = S.tmpOf j q → i = j
   dst_ns : ∀ i, S.staging (S.req i).dst = false
-  cname_ns : ∀ p h, S.staging p = false → S.staging (S.cname p h) = false
+  cname_ns : ∀ m p h, S.staging p = false → S.staging (S.cname m p h) = false
 
 def Valid (S : Sys) (init : List Chunk → Prop) (c : List Chunk) : Prop :=
   init c ∨ ∃ i, c = (S.req i).chunks ∧ S.H c = (S.req i).declared
@@ -328,7 +328,7 @@ theorem step_inv {S init s s'} (wf : WF S) (inv : Inv S init s) (st : Step S s s
       by_cases e : j = i
       · subst e; simp [upd, isFull] at hj
       · simp [upd, e] at hj; exact inv.full j fj hj
-  | conflict i fd cur h hc => exact publish_inv wf inv i fd cur _ (wf.cname_ns _ _ (wf.dst_ns i)) h
+  | conflict i fd cur h hc => exact publish_inv wf inv i fd cur _ (wf.cname_ns _ _ _ (wf.dst_ns i)) h
   | dLock i h hl =>
     refine ⟨inv.inj, inv.fresh, ?_, ?_, ?_, inv.pub⟩
     · intro j fj hj
